@@ -246,6 +246,26 @@ def rule_derived(ctx, ci):
     paths = run_method(repo, f, lambda: [bar_obj(ci), (3, 7)], summaries=vb(False))
     ok = bool(paths) and all(p.kind == "raise" and p.value == "MeterFormatError" for p in paths)
     ctx.check(ok, R, "set_meter.invalid", f.where(), "Bar.set_meter((3, 7))", "an invalid unit gives %s" % [(p.kind, p.value) for p in paths])
+    # the same with the repository's own validity test: a meter is (count, power of two) or (0, 0)
+    # (fractions such as 1/2 are left out: 'log2 is an integer' reads either way for them)
+    for unit, valid in ((1, True), (2, True), (4, True), (8, True), (16, True), (32, True), (64, True),
+                        (-4, False), (-1, False), (-2, False), (3, False), (6, False), (12, False), (0, False), (1.5, False)):
+        made = []
+
+        def fresh():
+            made.append(bar_obj(ci, meter=(3, 8), length=0.375))
+            return [made[-1], (4, unit)]
+        try:
+            paths = run_method(repo, f, fresh)
+        except CannotDecide as e:
+            raise AnalysisError("Bar.set_meter((4, %r)): %s" % (unit, e))
+        if valid:
+            ok = bool(paths) and all(p.kind == "return" and p.interp.args[0].attrs.get("meter") == (4, unit) and p.interp.args[0].attrs.get("length") == 4.0 / unit for p in paths)
+            why = "a power of two as the beat unit must be accepted and give length %r: %s" % (4.0 / unit, [(p.kind, p.value, p.interp.args[0].attrs.get("meter"), p.interp.args[0].attrs.get("length")) for p in paths])
+        else:
+            ok = bool(paths) and all(p.kind == "raise" and p.value == "MeterFormatError" and p.interp.args[0].attrs.get("meter") == (3, 8) and p.interp.args[0].attrs.get("length") == 0.375 for p in paths)
+            why = "a beat unit that is no power of two >= 1 must be refused with MeterFormatError and leave the bar as it was: %s" % [(p.kind, p.value, p.interp.args[0].attrs.get("meter"), p.interp.args[0].attrs.get("length")) for p in paths]
+        ctx.check(ok, R, "set_meter[(4, %r)]" % (unit,), f.where(), "Bar.set_meter((4, %r)) on a 3/8 bar" % (unit,), why)
     # '+': place with the beat unit (4 for the unbounded meter)
     f = repo.find_method(ci, "__add__")
     rec = record_class(repo, BAR, "Bar", ["place_notes"], result=Opaque("placed"))
